@@ -261,7 +261,7 @@ func checkC12(c *StatsCase) (*Outcome, map[string]bool) {
 }
 
 var c12Fixtures = []string{"flat24", "nest", "tiny"}
-var c12Classes = []string{"", "", "neg", "tiny", "nan", "sentinel"}
+var c12Classes = []string{"", "", "neg", "tiny", "nan", "sentinel", "longstr"}
 
 func TestC12(t *testing.T) {
 	rapid.Check(t, func(t *rapid.T) {
